@@ -6,38 +6,41 @@ Model: `Model/Encoder.lean`.  A sink is a log of write attempts with a failure s
 (`SinkBehaviour`: byte offset at which `write` fails, permanently or once; index of the failing
 `flush`, permanently or once); all writes of the crate are `write_all`, so short writes are invisible.
 
-Proved for EVERY sink behaviour, every configuration whose frame control lies inside the canvas
-(what `Encoder::new` + `set_animated` build) and every sequence of fewer than 2^32 operations of the
-whole-image API with ANY arguments:
+Proved for EVERY sink behaviour, every configuration an `Encoder` can hold (`Cfg.Accepted`: whatever
+`Encoder::with_info` lets through, or `Encoder::new` + `set_animated`) and every sequence of fewer than
+2^32 operations of the whole-image API with ANY arguments — the full statement for the whole-image
+API since the repairs f1da483 (with_info validates the frame control) and 92ed98c:
 
-* `C19_no_panic_partial`: no call panics (`write_header`, every operation, `finish`);
+* `C19_no_panic_writer`: no call panics (`write_header`, every operation, `finish`);
 * `C19_one_iend`: exactly one IEND emission is ever attempted — by `finish`, or by the drop; never
   a second one, also not after a failed `write_header` or a failed `finish`;
 * `C19_finish_complete`: `Ok` from `finish` ⇒ the sink's log ends with a completely accepted IEND;
   on a sink that never fails the chunks are moreover a valid skeleton (`C19_finish_valid`);
 * `C19_sink_failure_reported` / `C19_failure_persists`: a `write_chunk` that hits the failure offset
   returns the error, nothing of a failed chunk is completed later, and a permanently failing sink
-  fails every later write.
-* `C19_validation_partial`: with `validate_sequence`, `Writer::finish = Ok ⇔` images written = declared.
+  fails every later write;
+* `C19_validation`: with `validate_sequence`, on a sink that never fails,
+  `Writer::finish = Ok ⇔` images written = declared.
 
-FALSE on the code as it is (theorems by `decide` on model runs, all reproduced on the real crate):
-`C19_stream_finish_counterexample` (D14), `C19_stream_validation_counterexample` (D14),
+Still FALSE for the stream writer (theorems by `decide` on model runs, all reproduced on the real
+crate): `C19_stream_finish_counterexample` (D14), `C19_stream_validation_counterexample` (D14),
 `C19_stream_first_image_counterexample` (N8), and the reachable panics
-`C19_no_panic_counterexample_*` (N1, N2, N3, N4, N9).
+`C19_no_panic_counterexample_small_buffer` (N1), `…_fctl_io` (N2), `…_set_fctl` (N9).
 -/
 namespace Png.C19
 open Png Png.Val Png.Enc
 
-/-- The property at full strength: no run of the model — any configuration `with_info` accepts, both
+/-- The property at full strength: no run of the model — any configuration an `Encoder` can hold, both
     APIs, any sink — contains a panic. -/
 def C19_no_panic_statement : Prop :=
   ∀ (E : Codec) (Z : ZCodec) (c : Cfg) (beh : SinkBehaviour) (steps : List Step) (fin : PFinal),
-    c.inRange → withInfoOk c = true →
+    c.inRange → c.Accepted →
     (runProg E Z c beh steps fin).results.any anyPanic = false ∧ anyPanic (runProg E Z c beh steps fin).final = false
 
-/-- **No panic, whole-image API.**  Any sink, any arguments, fewer than 2^32 operations. -/
-theorem C19_no_panic_partial (E : Codec) (c : Cfg) (beh : SinkBehaviour) (ops : List Op) (fin : Final)
-    (hr : c.inRange) (hf : c.FctlInCanvas) (hn : c.NoIend) (hno : ∀ op ∈ ops, op.noIend)
+/-- **No panic, whole-image API (full statement for that API).**  Any accepted configuration, any sink,
+    any arguments, fewer than 2^32 operations. -/
+theorem C19_no_panic_writer (E : Codec) (c : Cfg) (beh : SinkBehaviour) (ops : List Op) (fin : Final)
+    (hr : c.inRange) (hf : c.Accepted) (hn : c.NoIend) (hno : ∀ op ∈ ops, op.noIend)
     (hlen : ops.length < 2 ^ 32) :
     (runWriter E c beh ops fin).header.isPanic = false ∧
     anyPanic (runWriter E c beh ops fin).results = false ∧
@@ -48,7 +51,7 @@ theorem C19_no_panic_partial (E : Codec) (c : Cfg) (beh : SinkBehaviour) (ops : 
 /-- **Exactly one IEND**, whatever fails: `finish` writes it, otherwise the drop does, and a drop
     after `finish` (or after a failed `finish`) writes nothing. -/
 theorem C19_one_iend (E : Codec) (c : Cfg) (beh : SinkBehaviour) (ops : List Op) (fin : Final)
-    (hr : c.inRange) (hf : c.FctlInCanvas) (hn : c.NoIend) (hno : ∀ op ∈ ops, op.noIend)
+    (hr : c.inRange) (hf : c.Accepted) (hn : c.NoIend) (hno : ∀ op ∈ ops, op.noIend)
     (hlen : ops.length < 2 ^ 32) :
     (runWriter E c beh ops fin).state.iendWritten = true ∧
     (runWriter E c beh ops fin).state.sink.iendAttempts = 1 :=
@@ -60,7 +63,7 @@ theorem C19_drop_after_finish (s : WState) (h : s.iendWritten = true) : dropW s 
 
 /-- **`Ok` from `finish` means complete**: the last thing the sink accepted is a whole IEND chunk. -/
 theorem C19_finish_complete (E : Codec) (c : Cfg) (beh : SinkBehaviour) (ops : List Op)
-    (hr : c.inRange) (hf : c.FctlInCanvas) (hn : c.NoIend) (hno : ∀ op ∈ ops, op.noIend)
+    (hr : c.inRange) (hf : c.Accepted) (hn : c.NoIend) (hno : ∀ op ∈ ops, op.noIend)
     (hlen : ops.length < 2 ^ 32) (hok : (runWriter E c beh ops .finish).final = some .ok) :
     ∃ pre, (runWriter E c beh ops .finish).state.sink.log = pre ++ [⟨.chunk iendChunk, 12⟩] :=
   (writer_clean E c beh ops .finish hr hf hn hno hlen).2.2.2.2.2 hok rfl
@@ -74,11 +77,11 @@ theorem C19_finish_valid (imgOk : ImgRule) (E : Codec) (c : Cfg) (hw : c.WellFor
   let h := writer_skeleton_valid imgOk E c hw hE ops .finish hdom
   ⟨h.2.2.1, h.2.2.2⟩
 
-/-- **Sequence validation** (sink that never fails; frame-rectangle setters only after the first
-    image): `finish = Ok` exactly when the declared number of images was written. -/
-theorem C19_validation_partial (imgOk : ImgRule) (E : Codec) (c : Cfg) (hw : c.WellFormed)
+/-- **Sequence validation** (sink that never fails; any setters at any time): `finish = Ok` exactly when
+    the declared number of images was written. -/
+theorem C19_validation (imgOk : ImgRule) (E : Codec) (c : Cfg) (hw : c.WellFormed)
     (hval : c.validate = true) (hE : Codec.Ok imgOk E c.color c.depth) (ops : List Op)
-    (hh : (writeHeader c {}).2 = .ok) (hall : AllAllowedV E (writeHeader c {}).1 ops) :
+    (hh : (writeHeader c {}).2 = .ok) (hall : ∀ op ∈ ops, op.inRange) :
     (runWriter E c {} ops .finish).final = some .ok ↔
       (Enc.runOps E (writeHeader c {}).1 ops).1.imagesWritten = declared (writeHeader c {}).1 :=
   writer_validation imgOk E c hw hval hE ops hh hall
@@ -140,26 +143,21 @@ theorem C19_no_panic_counterexample_fctl_io :
 theorem C19_no_panic_counterexample_set_fctl :
     runN9.results = [[.err .io], [.ok, .ok, .ok, .panic .setFctlNotAnimated]] := runN9_facts
 
-/-- N3: `Encoder::with_info` accepts a frame control outside the canvas / of width 0 -/
-theorem C19_no_panic_counterexample_with_info :
-    runOff.results = [.panic .resetDimUnderflow] ∧ runW0.results = [.panic .chunksZero] ∧
-    cfgOff.inRange ∧ withInfoOk cfgOff = true ∧ cfgW0.inRange ∧ withInfoOk cfgW0 = true :=
-  ⟨runOff_facts.1, runW0_facts.1, runOff_facts.2.1, runOff_facts.2.2, runW0_facts.2.1, runW0_facts.2.2⟩
-
-/-- N4: `next_frame_info` still multiplies `in_len * height` unchecked (:1213) -/
-theorem C19_no_panic_counterexample_next_frame_info :
-    runN4.final = [.panic .nextFrameInfoOverflow] ∧ cfgHuge.inRange := runN4_facts
+/-- the former panics of N3 / N4 / N6 are refusals or plain successes now -/
+theorem C19_repaired_misuse :
+    withInfo cfgOff = .error .outOfBounds ∧ withInfo cfgW0 = .error .zeroWidth ∧
+    runN6.final = [.err .noPalette] ∧ runN4.final = [.ok, .ok] :=
+  ⟨withInfo_facts.2.1, withInfo_facts.2.2.1, runN6_facts.1, runN4_facts.1⟩
 
 /-! non-vacuity -/
 set_option maxRecDepth 100000 in
-example : (cfgAnim 2).inRange ∧ (cfgAnim 2).FctlInCanvas ∧
+example : (cfgAnim 2).inRange ∧ (cfgAnim 2).Accepted ∧
     (∀ op ∈ [Op.setDim 7 0, .image [1, 2, 3], .resetDim, .image [7], .chunk 1886541428 []], op.noIend) := by decide
 example : (cfgAnim 2).NoIend := by intro r h; simp [cfgAnim, animatedCfg] at h
 set_option maxRecDepth 100000 in
 example : (runWriter toyCodec (cfgAnim 2) { writeFailAt := some 70, writeOnce := true }
     [.image [7], .image [7], .image [9]] .finish).final = some .ok := by decide
 set_option maxRecDepth 100000 in
-example : AllAllowedV toyCodec (writeHeader { cfgAnim 2 with validate := true } {}).1
-    [.image [7], .setDim 1 1, .image [7, 7], .image [9], .image [9]] := by decide
+example : ∀ op ∈ [Op.setDim 1 1, .image [7], .image [7, 7], .image [9], .image [9]], op.inRange := by decide
 
 end Png.C19
